@@ -862,3 +862,70 @@ void __wrap_exit(int code) {
 }
 
 }  // extern "C"
+
+namespace simk {
+int raw_listen(int node, Addr local) {
+  int save = K().cur_node;
+  K().cur_node = node;
+  int fd = __wrap_socket(AF_INET, SOCK_STREAM, 0);
+  K().cur_node = save;
+  if (fd < 0) return -1;
+  struct sockaddr_in sa;
+  memset(&sa, 0, sizeof sa);
+  sa.sin_family = AF_INET;
+  sa.sin_addr.s_addr = htonl(local.ip);
+  sa.sin_port = htons(local.port);
+  if (__wrap_bind(fd, (struct sockaddr *)&sa, sizeof sa) < 0 || __wrap_listen(fd, 5) < 0) { __wrap_close(fd); return -1; }
+  get(fd)->nonblock = true;
+  return fd;
+}
+int raw_accept(int lfd) {
+  struct sockaddr_in sa;
+  socklen_t l = sizeof sa;
+  int fd = __wrap_accept(lfd, (struct sockaddr *)&sa, &l);
+  if (fd >= 0) get(fd)->nonblock = true;
+  return fd;
+}
+int raw_connect(int node, Addr dst) {
+  int save = K().cur_node;
+  K().cur_node = node;
+  int fd = __wrap_socket(AF_INET, SOCK_STREAM, 0);
+  if (fd >= 0) {
+    get(fd)->nonblock = true;
+    struct sockaddr_in sa;
+    memset(&sa, 0, sizeof sa);
+    sa.sin_family = AF_INET;
+    sa.sin_addr.s_addr = htonl(dst.ip);
+    sa.sin_port = htons(dst.port);
+    __wrap_connect(fd, (struct sockaddr *)&sa, sizeof sa);
+  }
+  K().cur_node = save;
+  return fd;
+}
+bool raw_stream_read(int fd, Bytes &out, bool *eof) {
+  bool any = false;
+  if (eof) *eof = false;
+  Fd *f = get(fd);
+  if (f && f->connecting && f->conn_done) { int e = 0; socklen_t l = sizeof e; __wrap_getsockopt(fd, SOL_SOCKET, SO_ERROR, &e, &l); }
+  for (;;) {
+    uint8_t buf[4096];
+    ssize_t n = __wrap_recv(fd, buf, sizeof buf, 0);
+    if (n > 0) { out.insert(out.end(), buf, buf + n); any = true; continue; }
+    if (n == 0 && eof) *eof = true;
+    break;
+  }
+  return any;
+}
+void raw_stream_write(int fd, const Bytes &b) {
+  size_t off = 0;
+  int guard = 0;
+  Fd *f = get(fd);
+  if (f && f->connecting && f->conn_done) { int e = 0; socklen_t l = sizeof e; __wrap_getsockopt(fd, SOL_SOCKET, SO_ERROR, &e, &l); }
+  while (off < b.size() && guard++ < 100000) {
+    ssize_t n = __wrap_send(fd, b.data() + off, b.size() - off, 0);
+    if (n > 0) off += (size_t)n;
+    else if (n < 0 && errno != EAGAIN) break;
+  }
+}
+void raw_close(int fd) { __wrap_close(fd); }
+}  // namespace simk
